@@ -583,6 +583,31 @@ func derives(v ssa.Value, pred func(ssa.Value) bool) bool {
 				}
 			}
 			return walk(x.X)
+		case *ssa.Alloc:
+			// a local cell / struct / array: whatever is stored into it (or into its fields/elements)
+			if refs := x.Referrers(); refs != nil {
+				for _, r := range *refs {
+					switch y := r.(type) {
+					case *ssa.Store:
+						if y.Addr == x && walk(y.Val) {
+							return true
+						}
+					case *ssa.FieldAddr:
+						for _, r2 := range *y.Referrers() {
+							if st, ok := r2.(*ssa.Store); ok && st.Addr == y && walk(st.Val) {
+								return true
+							}
+						}
+					case *ssa.IndexAddr:
+						for _, r2 := range *y.Referrers() {
+							if st, ok := r2.(*ssa.Store); ok && st.Addr == y && walk(st.Val) {
+								return true
+							}
+						}
+					}
+				}
+			}
+			return false
 		case *ssa.BinOp:
 			return walk(x.X) || walk(x.Y)
 		case *ssa.Convert:
@@ -854,4 +879,67 @@ func factCallTo(b *ssa.BasicBlock, f *ssa.Function, truth bool) *ssa.Call {
 // isInitFn: the synthetic package initialiser or a declared func init().
 func isInitFn(f *ssa.Function) bool {
 	return f.Parent() == nil && (f.Name() == "init" || strings.HasPrefix(f.Name(), "init#"))
+}
+
+// addrRootedAt: is the memory designated by addr reached from root by following fields, elements and
+// pointer loads (no data flow through values stored into unrelated locals)?
+func addrRootedAt(addr, root ssa.Value) bool {
+	seen := map[ssa.Value]bool{}
+	var walk func(v ssa.Value) bool
+	walk = func(v ssa.Value) bool {
+		if v == nil || seen[v] {
+			return false
+		}
+		seen[v] = true
+		if v == root {
+			return true
+		}
+		switch x := v.(type) {
+		case *ssa.FieldAddr:
+			return walk(x.X)
+		case *ssa.Field:
+			return walk(x.X)
+		case *ssa.IndexAddr:
+			return walk(x.X)
+		case *ssa.Index:
+			return walk(x.X)
+		case *ssa.Lookup:
+			return walk(x.X)
+		case *ssa.Slice:
+			return walk(x.X)
+		case *ssa.ChangeType:
+			return walk(x.X)
+		case *ssa.MakeInterface:
+			return walk(x.X)
+		case *ssa.TypeAssert:
+			return walk(x.X)
+		case *ssa.Phi:
+			for _, e := range x.Edges {
+				if walk(e) {
+					return true
+				}
+			}
+		case *ssa.Extract:
+			if nx, ok := x.Tuple.(*ssa.Next); ok {
+				if rg, ok := nx.Iter.(*ssa.Range); ok {
+					return walk(rg.X)
+				}
+			}
+		case *ssa.UnOp:
+			if x.Op == token.MUL {
+				if a, ok := x.X.(*ssa.Alloc); ok {
+					// local variable cell: the pointers stored into the cell itself
+					for _, r := range *a.Referrers() {
+						if st, ok := r.(*ssa.Store); ok && st.Addr == a && walk(st.Val) {
+							return true
+						}
+					}
+					return false
+				}
+				return walk(x.X)
+			}
+		}
+		return false
+	}
+	return walk(addr)
 }
